@@ -166,17 +166,49 @@ static void walk(gen_t *g, binson_parser *p, const uint8_t *doc, size_t size, ch
     if (!hostile) while (!t.left && !t.fresh && t.sp > 0) { if (!call_op(p, doc, size, t.stk[t.sp-1] == 'O' ? "lo" : "la", NULL, 0, 0, &t)) break; }
 }
 
+#include <dirent.h>
+/* --corpus DIR: every file of the repository's test corpus is initialised, verified and fully traversed */
+static int corpus_run(const char *dir, int limit, uint64_t seed)
+{
+    struct dirent **names; int n = scandir(dir, &names, NULL, alphasort); int done = 0;
+    rng_t r = {seed * 31 + 7}; gen_t g; memset(&g, 0, sizeof g); g.r = &r;
+    int stride = (limit > 0 && n > limit) ? n / limit : 1; int phase = stride > 1 ? (int) (seed % (uint64_t) stride) : 0;
+    for (int i = 0; i < n; i++) {
+        if (names[i]->d_name[0] == '.') continue;
+        if (stride > 1 && (i % stride) != phase) continue;       /* a seeded slice of the corpus */
+        char path[1024]; snprintf(path, sizeof path, "%s/%s", dir, names[i]->d_name);
+        FILE *f = fopen(path, "rb"); if (!f) continue;
+        fseek(f, 0, SEEK_END); long len = ftell(f); fseek(f, 0, SEEK_SET);
+        if (len < 0 || len > 20000 || (limit > 0 && done >= limit)) { fclose(f); continue; }
+        uint8_t *doc = (uint8_t *) malloc((size_t) len); size_t got = fread(doc, 1, (size_t) len, f); fclose(f); (void) got;
+        int maxd = 10;
+        binson_parser *p = (binson_parser *) malloc(sizeof *p); binson_state *st = (binson_state *) malloc((size_t) maxd * sizeof *st);
+        memset(p, 0x3C, sizeof *p); memset(st, 0x3C, (size_t) maxd * sizeof *st); p->max_depth = (uint_fast8_t) maxd; p->state = st;
+        int ret = binson_parser_init_object(p, doc, (size_t) len);
+        fprintf(OUTF, "{\"e\":\"I\",\"root\":\"O\",\"maxd\":%d,\"fill\":60,\"reuse\":0,\"valid\":0", maxd);
+        ev_bytes("buf", doc, (size_t) len);
+        fprintf(OUTF, ",\"ret\":%d,\"err\":%d}\n", ret, (int) p->error_flags); nevents++;
+        track_t t0; memset(&t0, 0, sizeof t0); t0.fresh = true;
+        call_op(p, doc, (size_t) len, "v", NULL, 0, 0, &t0);
+        if (p->error_flags == BINSON_ERROR_NONE) walk(&g, p, doc, (size_t) len, 'O', false, -1);
+        free(st); free(p); free(doc); done++;
+    }
+    return done;
+}
+
 int main(int argc, char **argv)
 {
-    uint64_t seed = 1; int ndocs = 50; const char *out = NULL; const char *mode = "mixed"; bool big = false;
+    uint64_t seed = 1; int ndocs = 50; const char *out = NULL; const char *mode = "mixed"; bool big = false; const char *corpus = NULL;
     for (int i = 1; i < argc; i++) {
         if (!strcmp(argv[i], "--seed")) seed = strtoull(argv[++i], NULL, 10);
         else if (!strcmp(argv[i], "--docs")) ndocs = atoi(argv[++i]);
         else if (!strcmp(argv[i], "--out")) out = argv[++i];
         else if (!strcmp(argv[i], "--mode")) mode = argv[++i];
         else if (!strcmp(argv[i], "--big")) big = true;
+        else if (!strcmp(argv[i], "--corpus")) corpus = argv[++i];
     }
     OUTF = out ? fopen(out, "w") : stdout;
+    if (corpus) { int k = corpus_run(corpus, ndocs, seed); fprintf(stderr, "record_parser: %d corpus files, %ld events\n", k, nevents); if (out) fclose(OUTF); return 0; }
     if (getenv("VERIF_DEBUG")) setvbuf(OUTF, NULL, _IOLBF, 0);
     rng_t r = {seed * 0x9E3779B97F4A7C15ULL + 12345};
     gen_t g; memset(&g, 0, sizeof g); g.r = &r; g.big = big;
